@@ -91,6 +91,7 @@ type Case struct {
 	RateDen int64  `json:"rateden,omitempty"`
 	TbBits  uint64 `json:"tbbits,omitempty"`
 	UseMap  bool   `json:"usemap,omitempty"`
+	Signed  bool   `json:"signed,omitempty"` // bench: the source delivers signed samples (DataRecord.signed)
 	Chans   []Chan `json:"chans"`
 	Ops     []Op   `json:"ops"`
 }
@@ -588,6 +589,9 @@ func runWriter(c Case) lib.Result {
 	}
 	tb := math.Float64frombits(c.TbBits)
 	tags := map[string]bool{c.Kind: true}
+	if c.NPre >= c.NSamp {
+		tags["presamples>=samples"] = true
+	}
 	if c.SfDiv == 0 && c.Kind == "w22" {
 		tags["subframe-divisions-0"] = true
 	}
@@ -766,6 +770,15 @@ func runBench(c Case) lib.Result {
 	dir := caseDir(c.ID)
 	defer os.RemoveAll(dir)
 	tags := map[string]bool{"bench": true}
+	if c.Signed {
+		tags["signed-samples"] = true
+	}
+	if c.NPre >= c.NSamp {
+		tags["presamples>=samples"] = true
+	}
+	if c.NSamp == 1 {
+		tags["one-sample-records"] = true
+	}
 	if c.SfDiv == 0 {
 		tags["subframe-divisions-0"] = true
 	}
@@ -956,7 +969,7 @@ func runBench(c Case) lib.Result {
 				for k, v := range r.Coefs {
 					coefs[k] = math.Float64frombits(v)
 				}
-				vr[i] = dastard.VerifRecord{Chan: o.Ch, Frame: r.Frame, TimeNs: r.Ns, Pre: r.Pre, Data: append([]uint16(nil), r.Data...),
+				vr[i] = dastard.VerifRecord{Chan: o.Ch, Frame: r.Frame, TimeNs: r.Ns, Pre: r.Pre, Data: append([]uint16(nil), r.Data...), Signed: c.Signed,
 					PretrigMean: math.Float64frombits(r.Mean), PretrigDelta: math.Float64frombits(r.Delta),
 					ResidualStdDev: math.Float64frombits(r.Resid), ModelCoefs: coefs}
 				rts = append(rts, recTerm(r))
